@@ -59,6 +59,8 @@ func c10Alphabet(k int) []c10Sym {
 	a = append(a, c10Sym{"hang-and-reset", 0, ""}, c10Sym{"hang-and-reset", k - 1, ""})
 	// eight changes in a row (the order in which hc walks its connections is random per change)
 	a = append(a, c10Sym{"app-burst", -1, "A"})
+	// three changes while a connection's own request is being answered
+	a = append(a, c10Sym{"blocked-read-three-changes", 0, ""})
 	// one PUT entry carrying "value" and "ev" together
 	for c := 0; c < k; c++ {
 		a = append(a, c10Sym{"write-sub", c, "A"}, c10Sym{"write-unsub", c, "A"})
@@ -301,6 +303,40 @@ func (r *c10Run) step(sym c10Sym) bool {
 			notify(sym.Ch, v, -1)
 		}
 		r.appSet(sym.Ch, ch, v)
+	case "blocked-read-three-changes":
+		// the connection's own request is being answered (its handler waits in an application read callback) while
+		// the application changes A three times, back to a value already notified: every change is one EVENT for every
+		// subscriber — for this connection they follow its response
+		ro := r.b.ReadOnly.Characteristic
+		entered, gate := make(chan bool, 1), make(chan bool)
+		ro.OnValueGet(func() interface{} {
+			select {
+			case entered <- true:
+			default:
+			}
+			<-gate
+			return "gated"
+		})
+		k := r.conns[sym.Conn]
+		k.Send(refctl.BuildRequest("GET", fmt.Sprintf("/characteristics?id=%d.%d", r.b.Extra.ID, ro.ID), "", nil))
+		select {
+		case <-entered:
+		case <-time.After(5 * time.Second):
+			r.c.Infra("gated read callback not reached")
+		}
+		ro.OnValueGet(nil)
+		chA, _ := r.ch("A")
+		for i := 0; i < 3; i++ {
+			v := r.other("A")
+			r.val["A"] = v
+			notify("A", v, -1)
+			r.appSet("A", chA, v)
+		}
+		close(gate)
+		if _, _, err := k.Await(); err != nil {
+			r.fail("request-failed/"+sym.Op, fmt.Sprintf("%v: the blocked request is not answered: %v", sym, err))
+			return false
+		}
 	case "hang-and-reset":
 		if r.gate != nil {
 			return true // once per history
@@ -555,7 +591,7 @@ func init() {
 	fw.Register(&fw.Check{
 		ID:    "C10",
 		Level: "model_checking",
-		Rule:  "every history of length 3 with 2 verified controller connections over the mirror-reduced alphabet (quick) / length 4 with 2 connections over the mirror-reduced alphabet, length 3 with 2 and with 3 connections over the full alphabet (thorough) over: subscribe, unsubscribe, changing write, non-changing write, a PUT writing two characteristics, a PUT entry that writes and subscribes / unsubscribes at once, application set (changing / non-changing), close, reconnect — on an observable bool of one accessory, an observable int of another, a characteristic without event permission, a second accessory's characteristic with the same instance id as the first, and out-of-range writes that are clamped, and a connection whose read blocks in an application callback and which then resets its socket (it stays registered but dead while later events happen); every history also from the non-initial state 'every connection subscribed and notified once' (one level less deep); real transport over TCP with real pair-verify, fresh system per history. After EVERY event a barrier request on every open connection collects the EVENT messages that arrived; they must equal the reference model (subscription relation × value × open set): exactly one EVENT with the new value per subscribed other connection, none to the originator, to unsubscribed or closed ones, none for unchanged values or characteristics without event permission. A mismatch is re-checked after 20 ms and 500 ms before it counts. states = histories executed, distinct_nontrivial = distinct (event, characteristic, per-connection expected EVENT count pattern) classes The alphabet is also explored (one level less deep) with an application that keeps the state itself (read callback answering from its state, typed remote-update callbacks — registered after the transport was created — following writes). Plus a depth-1 sweep over every observable readable constructor × its value alphabet (strings that look like protocol lines included): exactly one EVENT carrying exactly the value, none when the same value is set again, and the connection stays in frame. Plus, in a subprocess built with a scheduling point before EVERY statement of hc's packages (textual insertion through go build -overlay): every interleaving with at most 1 (thorough 2) preemptions of pairs of operations on disjoint objects — and, where the property is about served requests, of pairs of handlers on two verified connections of one accessory touching different characteristics — each side must observe exactly what it observes when the two run one after the other (module-level mutable state is what makes them differ).",
+		Rule:  "every history of length 3 with 2 verified controller connections over the mirror-reduced alphabet (quick) / length 4 with 2 connections over the mirror-reduced alphabet, length 3 with 2 and with 3 connections over the full alphabet (thorough) over: subscribe, unsubscribe, changing write, non-changing write, a PUT writing two characteristics, a PUT entry that writes and subscribes / unsubscribes at once, application set (changing / non-changing), close, reconnect — on an observable bool of one accessory, an observable int of another, a characteristic without event permission, a second accessory's characteristic with the same instance id as the first, and out-of-range writes that are clamped, and a connection whose read blocks in an application callback and which then resets its socket (it stays registered but dead while later events happen), and three changes (back to a value already notified) while a connection's own request is being answered; every history also from the non-initial state 'every connection subscribed and notified once' (one level less deep); real transport over TCP with real pair-verify, fresh system per history. After EVERY event a barrier request on every open connection collects the EVENT messages that arrived; they must equal the reference model (subscription relation × value × open set): exactly one EVENT with the new value per subscribed other connection, none to the originator, to unsubscribed or closed ones, none for unchanged values or characteristics without event permission. A mismatch is re-checked after 20 ms and 500 ms before it counts. states = histories executed, distinct_nontrivial = distinct (event, characteristic, per-connection expected EVENT count pattern) classes The alphabet is also explored (one level less deep) with an application that keeps the state itself (read callback answering from its state, typed remote-update callbacks — registered after the transport was created — following writes). Plus a depth-1 sweep over every observable readable constructor × its value alphabet (strings that look like protocol lines included): exactly one EVENT carrying exactly the value, none when the same value is set again, and the connection stays in frame. Plus, in a subprocess built with a scheduling point before EVERY statement of hc's packages (textual insertion through go build -overlay): every interleaving with at most 1 (thorough 2) preemptions of pairs of operations on disjoint objects — and, where the property is about served requests, of pairs of handlers on two verified connections of one accessory touching different characteristics — each side must observe exactly what it observes when the two run one after the other (module-level mutable state is what makes them differ).",
 		Run:   c10Run1,
 		Replay: func(c *fw.Ctx, raw json.RawMessage) {
 			var cas c10Case
